@@ -258,6 +258,46 @@ def main():
                     for mm, msg in rec.drain():
                         ctx.violation(mm, "%s: %s" % (cid, msg), cid)
         ctx.lap("symmetry")
+
+    # ------------------------------------------------------------------ two DIFFERENT grids (coupling block between two bodies): same decomposition,
+    # C and N are the maps of the two spaces, V0/V1 the single layer between the element-wise spaces of the two grids.
+    # (No singular part exists between different grids: the regular assemblers must integrate every element pair.)
+    if not ctx.worker:
+        rng2 = ctx.rng("two_grids")
+        mA = M.distort(M.refine(M.octahedron(), 1), rng2, **mild)                      # test grid, 32 elements
+        mB = M.distort(M.cube(), rng2, **mild)                                         # trial grid, 12 elements (another numbering and size)
+        mB.V = mB.V * 0.7 + np.array([[2.6], [0.4], [-0.3]])
+        gA, gB = M.to_grid(mA), M.to_grid(mB)
+        onesA, onesB = np.ones(mA.ne), np.ones(mB.ne)
+        ClA, NlA = curl_maps(mA.V, mA.E, onesA), normal_maps(mA.V, mA.E, onesA)
+        ClB, NlB = curl_maps(mB.V, mB.E, onesB), normal_maps(mB.V, mB.E, onesB)
+        par = O.params(api, 5, 4)
+        testA, trialB = api.function_space(gA, "P", 1), api.function_space(gB, "P", 1)
+        TsA, TtB = testA.map_to_full_grid.toarray(), trialB.map_to_full_grid.toarray()
+        d0A, d0B = full_space(api, gA, "DP0", None), full_space(api, gB, "DP0", None)
+        d1A, d1B = full_space(api, gA, "DP1", None), full_space(api, gB, "DP1", None)
+        for k in [None, 1.3 - 0.2j, ("mod", 0.8)] + ([] if ctx.quick else [2.1, ("mod", 2.0)]):
+            cid = "W_two_grids:octa_r1<-cube:k=%s" % (k,)
+            if not ctx.want(cid):
+                continue
+            with ctx.guard(cid, "hypersingular_decomposition:two_grids"):
+                fam = "laplace" if k is None else ("modified_helmholtz" if isinstance(k, tuple) else "helmholtz")
+                kk = None if k is None else (k[1] if isinstance(k, tuple) else k)
+                k2 = 0.0 if k is None else (-(kk ** 2) if isinstance(k, tuple) else kk * kk)
+                W = O.dense(O.boundary(api, fam, "hypersingular", trialB, testA, testA, kk, parameters=par))
+                V0 = O.dense(O.boundary(api, fam, "single_layer", d0B, d0A, d0A, kk, parameters=par))
+                ref = sum((ClA[c] @ TsA).T @ V0 @ (ClB[c] @ TtB) for c in range(3))
+                if k2 != 0:
+                    V1 = O.dense(O.boundary(api, fam, "single_layer", d1B, d1A, d1A, kk, parameters=par))
+                    ref = ref - k2 * sum((NlA[c] @ TsA).T @ V1 @ (NlB[c] @ TtB) for c in range(3))
+                dev = O.rel(W, ref)
+                worst["W"] = max(worst["W"], dev)
+                ctx.case(cid, {"test_grid": mA.describe(), "trial_grid": mB.describe(), "op": fam + ".hypersingular", "k": kk, "rel_dev": dev})
+                if not np.all(np.isfinite(W)) or dev > TOL:
+                    ctx.violation("decomposition:hypersingular:%s:two_grids" % fam, "%s: ||W - (C'V0C - k^2 N'V1N)|| / ||W|| = %.3e" % (cid, dev), cid)
+            for mm, msg in rec.drain():
+                ctx.violation(mm, "%s: %s" % (cid, msg), cid)
+        ctx.lap("two_grids")
     ctx.note("launch_recorder", rec.summary())
     ctx.finish()
 
